@@ -166,7 +166,7 @@ def run(chk):
         "the orbit of the real one-step infer_redirection(recursive=False) is followed to a fixed point / cycle / horizon 16 and "
         "the recursive call is run under a recursion limit of 400 and a 2 s watchdog. distinct_nontrivial = distinct (end, hops)."
     )
-    failures, tags = grid.run(chk, GRID, d, evaluate)
+    failures, tags = grid.run(chk, GRID, d, evaluate, shrink=(GRID.wit, GRID.wsimplify, fails_fn))
     n = chk.cov["states"]
     chk.add("transitions", n * 3)
     chk.add("evaluations", n)
@@ -176,4 +176,3 @@ def run(chk):
     if tags.get("multi-hop", 0) == 0:
         raise core.Harness("no multi-hop orbit explored")
     chk.cov["multi_hop_orbits"] = tags.get("multi-hop", 0)
-    core.reduce_failures(chk, [(c, GRID.wit(case), e, g) for (c, case, e, g) in failures], GRID.wsimplify, fails_fn)
